@@ -579,26 +579,39 @@ def main(chk):
                 want = [k for k, pos in enumerate(case['data'], start=1) if pos in exp['pos']] if exp['res'] == 'ok' else []
                 if event['res'] != exp['res'] or event['rows'] != want:
                     failures.setdefault((cid, seg, n), describe(case, seg, n, event, exp['res'], want))
-    # binding self-tests: corrupted observations appended to the batch must be rejected by TLC
-    corrupted = selftest_traces()
-    verdicts = validate(chk, traces + [t for _, t in corrupted])
-    for (name, _), (matched, length) in zip(corrupted, verdicts[len(traces):]):
-        chk.selftest(name, matched < length)
-
-    accepted = 0
-    for (cid, seg, events), (matched, length) in zip(index, verdicts):
-        case = cases[cid]
-        if matched == length:
-            accepted += 1
-            if any(key[0] == cid and key[1] == seg for key in failures):
-                raise tlc.MachineryError(f'TraceWindows accepted a trace the exported windows reject: case {cid} {seg}')
-            continue
-        n = min(matched, len(events) - 1)
-        direct = sorted(key[2] for key in failures if key[0] == cid and key[1] == seg)
-        if 'expect' in case and (not direct or direct[0] != n):
-            raise tlc.MachineryError(f'TraceWindows and the exported windows disagree on case {cid} {seg}: {matched} vs {direct}')
-        what = 'tiling clause violated over the whole sequence' if matched == len(events) else None
-        failures.setdefault((cid, seg, n), describe(case, seg, n, events[n], None, None, what))
+    # code -> spec: TLC judges every trace; a rejected trace is cut behind the rejected launch and its remainder judged
+    # again (not chained any more), so that a failure never hides a later one
+    corrupted = selftest_traces()  # binding self-tests: corrupted observations must be rejected by TLC
+    queue = [(cid, seg, events, 0, cases[cid]['chain']) for cid, seg, events in index]
+    rejected = {}  # (case index, segment, launch index) as judged by TraceWindows.tla
+    accepted, rounds = 0, 0
+    while queue:
+        batch = [dict(trace_of(cases[cid], seg, events), chain=chain) for cid, seg, events, _, chain in queue]
+        verdicts = validate(chk, batch + ([t for _, t in corrupted] if rounds == 0 else []), f'c10-traces-{rounds}.json')
+        if rounds == 0:
+            for (name, _), (matched, length) in zip(corrupted, verdicts[len(batch):]):
+                chk.selftest(name, matched < length)
+        pending = []
+        for (cid, seg, events, base, _), (matched, length) in zip(queue, verdicts):
+            if matched == length:
+                accepted += base == 0
+            elif matched == len(events):
+                # every launch delivered its documented window, yet the tiling clauses fail: by Windows.tla this is
+                # impossible for consecutive windows - the generator produced a sequence that is not chained
+                raise tlc.MachineryError(f'case {cid} {seg}: launches accepted but tiling rejected (not a chained sequence?)')
+            else:
+                rejected[(cid, seg, base + matched)] = events[matched]
+                if matched + 1 < len(events):
+                    pending.append((cid, seg, events[matched + 1:], base + matched + 1, False))
+        queue = pending
+        rounds += 1
+    # both directions must tell the same story wherever both have an opinion
+    direct = {key for key in failures}
+    judged = {key for key in rejected if 'expect' in cases[key[0]]}
+    if direct != judged:
+        raise tlc.MachineryError(f'TraceWindows and the exported windows disagree on {sorted(direct ^ judged)[:5]}')
+    for (cid, seg, n), event in rejected.items():
+        failures.setdefault((cid, seg, n), describe(cases[cid], seg, n, event, None, None))
 
     for (cid, seg, n), what in sorted(failures.items()):
         case = cases[cid]
